@@ -95,3 +95,19 @@ func vPick(quick, thorough int) int {
 	}
 	return quick
 }
+
+// Branch-free helpers: the executor turns them into ite/and/or terms so that
+// reference models written with them run on a single path.
+func vIte64(c bool, a, b uint64) uint64 {
+	if c {
+		return a
+	}
+	return b
+}
+func vAnd(a, b bool) bool { return a && b }
+func vOr(a, b bool) bool  { return a || b }
+
+// vSplit makes the executor case-split on the value of x (one path per
+// feasible value, at most maxconc); later occurrences of the same expression
+// are constant on each path. Natively it is the identity.
+func vSplit(x uint64) uint64 { return x }
